@@ -169,6 +169,11 @@ func (e *unitsEngine) typeOf(v ssa.Value, depth int) (unitT, bool) {
 			return e.fieldType(f)
 		}
 	case *ssa.Phi:
+		// a guard on a shift parameter whose value is known in this call context
+		// (`if shift > 63 { v, shift = 0, 0 }`) selects one edge statically
+		if sel := e.selectEdge(x); sel != nil {
+			return e.typeOf(sel, depth+1)
+		}
 		var res *unitT
 		for _, ed := range x.Edges {
 			t, ok := e.typeOf(ed, depth+1)
@@ -215,6 +220,70 @@ func (e *unitsEngine) fieldType(f *types.Var) (unitT, bool) {
 	return e.fail("field %s has no declared unit", name)
 }
 
+// selectEdge: phi merges the two arms of an `if` whose condition compares a
+// parameter of known constant value (a shift count bound in this call context)
+// with a constant: the edge of the arm that is taken.  nil if not of that shape.
+func (e *unitsEngine) selectEdge(phi *ssa.Phi) ssa.Value {
+	if len(phi.Edges) != 2 {
+		return nil
+	}
+	b := phi.Block()
+	d := b.Idom()
+	if d == nil {
+		return nil
+	}
+	ifi, ok := lastInstr(d).(*ssa.If)
+	if !ok || len(d.Succs) != 2 {
+		return nil
+	}
+	cmp, ok := ifi.Cond.(*ssa.BinOp)
+	if !ok {
+		return nil
+	}
+	val := func(v ssa.Value) (int64, bool) {
+		if k, ok := constInt(v); ok {
+			return k, true
+		}
+		if pt, ok := e.params[v]; ok && pt.Unit == "#shift" {
+			return int64(pt.E2), true
+		}
+		return 0, false
+	}
+	x, okx := val(cmp.X)
+	y, oky := val(cmp.Y)
+	if !okx || !oky {
+		return nil
+	}
+	var taken bool
+	switch cmp.Op {
+	case token.GTR:
+		taken = x > y
+	case token.GEQ:
+		taken = x >= y
+	case token.LSS:
+		taken = x < y
+	case token.LEQ:
+		taken = x <= y
+	case token.EQL:
+		taken = x == y
+	case token.NEQ:
+		taken = x != y
+	default:
+		return nil
+	}
+	succ := d.Succs[1]
+	if taken {
+		succ = d.Succs[0]
+	}
+	for i, p := range b.Preds {
+		// the arm's block (a straight-line then/else block) or the branch block itself for the empty arm
+		if (p == succ && len(p.Preds) == 1 && p.Preds[0] == d) || (p == d && succ == b) {
+			return phi.Edges[i]
+		}
+	}
+	return nil
+}
+
 func (e *unitsEngine) binop(x *ssa.BinOp, depth int) (unitT, bool) {
 	switch x.Op {
 	case token.SHL:
@@ -225,7 +294,15 @@ func (e *unitsEngine) binop(x *ssa.BinOp, depth int) (unitT, bool) {
 		k, isC := constInt(x.Y)
 		if !isC {
 			// shift by a parameter with a known constant value (getScaledValue)
-			if pt, ok := e.params[x.Y]; ok && pt.Unit == "#shift" {
+			sy := x.Y
+			if phi, ok := sy.(*ssa.Phi); ok {
+				if sel := e.selectEdge(phi); sel != nil {
+					sy = sel
+				}
+			}
+			if kk, ok := constInt(sy); ok {
+				k, isC = kk, true
+			} else if pt, ok := e.params[sy]; ok && pt.Unit == "#shift" {
 				k, isC = int64(pt.E2), true
 			}
 		}
